@@ -228,7 +228,7 @@ func mutateExpr(kind, mut string, t hs.Expr) ([]hs.Stmt, bool) {
 // ---------------------------------------------------------------- S6
 
 var forIterables = []string{"list", "range", "str", "list-of-lists", "range-inclusive", "empty-list"}
-var forBodies = []string{"read", "push-to-source", "set-source-elem", "reassign-source", "assign-loop-var", "pop-source", "nested-same-source", "break-first", "continue-odd"}
+var forBodies = []string{"read", "push-to-source", "set-source-elem", "reassign-source", "assign-loop-var", "pop-source", "nested-same-source", "break-first", "continue-odd", "break-then-reiterate", "return-then-reiterate", "throw-then-reiterate", "iterate-twice"}
 
 func forCount() int { return len(forIterables) * len(forBodies) }
 
@@ -303,13 +303,41 @@ func forGen(idx int) (progCase, bool) {
 		}
 	case "nested-same-source":
 		inner = append(inner, &hs.For{Var: "y", Iter: hs.V("s"), Body: hs.Blk(nil, hs.Println(hs.S("in"), hs.V("x"), hs.V("y")))})
+	case "break-then-reiterate", "return-then-reiterate", "throw-then-reiterate", "iterate-twice":
 	case "break-first":
 		inner = append(inner, &hs.Break{})
 	case "continue-odd":
 		inner = append([]hs.Stmt{hs.ES(hs.Asg("+=", hs.V("n"), hs.I(1))), hs.ES(&hs.If{Cond: hs.Bin("==", hs.Bin("%", hs.V("n"), hs.I(2)), hs.I(1)), Then: hs.Blk(nil, &hs.Continue{})})}, inner...)
 	}
 	body := []hs.Stmt{hs.LetS("s", src), hs.LetS("n", hs.I(0)), &hs.For{Var: "x", Iter: hs.V("s"), Body: hs.Blk(nil, inner...)}, hs.Println(hs.S("src"), hs.V("s")), hs.Println(hs.S("end"))}
-	prog := &hs.Program{Funcs: []*hs.Func{hs.Fn("main", nil, hs.Blk(nil, body...))}}
+	prog := &hs.Program{}
+	again := &hs.For{Var: "y", Iter: hs.V("s"), Body: hs.Blk(nil, hs.Println(hs.S("again"), hs.V("y")))}
+	switch bodyKind {
+	case "break-then-reiterate":
+		// leave the first loop early, then iterate the SAME stored value again (twice)
+		first := &hs.For{Var: "x", Iter: hs.V("s"), Body: hs.Blk(nil, hs.Println(hs.S("it"), hs.V("x")), hs.ES(hs.Asg("+=", hs.V("n"), hs.I(1))), hs.ES(&hs.If{Cond: hs.Bin("==", hs.V("n"), hs.I(2)), Then: hs.Blk(nil, &hs.Break{})}))}
+		body = []hs.Stmt{hs.LetS("s", src), hs.LetS("n", hs.I(0)), first, again, &hs.For{Var: "z", Iter: hs.V("s"), Body: hs.Blk(nil, hs.Println(hs.S("third"), hs.V("z")), &hs.Break{})}, again, hs.Println(hs.S("end"))}
+	case "iterate-twice":
+		body = []hs.Stmt{hs.LetS("s", src), &hs.For{Var: "x", Iter: hs.V("s"), Body: hs.Blk(nil, hs.Println(hs.S("it"), hs.V("x")))}, again, hs.Println(hs.S("end"))}
+	case "return-then-reiterate":
+		var pt *hs.Type
+		switch itKind {
+		case "list":
+			pt = hs.TList(hs.TInt)
+		case "list-of-lists":
+			pt = hs.TList(hs.TList(hs.TInt))
+		case "range":
+			pt = hs.TRange
+		case "str":
+			pt = hs.TStr
+		}
+		prog.Funcs = append(prog.Funcs, hs.Fn("firstOf", nil, hs.Blk(nil, &hs.For{Var: "x", Iter: hs.V("q"), Body: hs.Blk(nil, hs.Println(hs.S("first"), hs.V("x")), &hs.Return{})}), hs.P("q", pt)))
+		body = []hs.Stmt{hs.LetS("s", src), hs.ES(hs.CallN("firstOf", hs.V("s"))), hs.ES(hs.CallN("firstOf", hs.V("s"))), again, hs.Println(hs.S("end"))}
+	case "throw-then-reiterate":
+		thr := &hs.For{Var: "x", Iter: hs.V("s"), Body: hs.Blk(nil, hs.Println(hs.S("it"), hs.V("x")), hs.ES(hs.CallN("throw", hs.S("stop"))))}
+		body = []hs.Stmt{hs.LetS("s", src), hs.ES(&hs.Try{Body: hs.Blk(nil, thr), Var: "e", Catch: hs.Blk(nil, hs.Println(hs.S("caught"), hs.Mem(hs.V("e"), "message")))}), again, hs.Println(hs.S("end"))}
+	}
+	prog.Funcs = append(prog.Funcs, hs.Fn("main", nil, hs.Blk(nil, body...)))
 	tags := []string{"for:" + itKind, "body:" + bodyKind}
 	if itKind == "list-of-lists" && bodyKind == "assign-loop-var" {
 		tags = append(tags, "unspec:for-snapshot-depth")
